@@ -787,10 +787,19 @@ struct Case
     std::ostringstream op;
     op << "w " << idn << " " << size << " " << ts << " " << offset_at(ts);
     auto v = list_dir();
-    emit(op.str(), v);
-    if (threw) return;
     FileView cur_after;
     for (auto const& f : v) if (f.name == abase) cur_after = f;
+    if (sinkk == 'J')
+    {
+      // the bytes the JSON sink wrote for this statement (the model keeps both sizes): growth of the current file, or its
+      // whole size when the statement opened it
+      uint64_t wire = size;
+      if (!cur_after.ids.empty() && cur_after.ids.back() == idn)
+        wire = cur_after.ids.size() == 1 ? cur_after.bytes : cur_after.bytes - cur_before.bytes;
+      op << " wire=" << wire;
+    }
+    emit(op.str(), v);
+    if (threw) return;
     bool const rotated = !cur_before.ids.empty() && cur_after.ids.size() == 1 && cur_after.ids[0] == idn;
     if (rotated) { cur_open_ts = ts; ++g_stats["rotations_observed"]; }
     if (cur_after.ids.size() >= 1 && cur_after.ids[0] == idn) open_ts_of_first[idn] = cur_open_ts;
